@@ -73,7 +73,7 @@ type c01Cfg struct {
 	ErrMode  string // page | api | json | button
 	Bypass   string // none | route | ip | preflight | all
 	Expire   string // 168h | 2h
-	Static   bool   // sole upstream static://202
+	Static   bool   // static://202 at "/" (the second upstream stays at /b/)
 }
 
 func (c c01Cfg) String() string {
@@ -279,6 +279,7 @@ type c01Shared struct {
 	Deleted  *c01Sess // redis ticket whose entry was deleted
 	Tok      map[string]string
 	redisMu  sync.Mutex
+	owned    map[string]bool
 }
 
 func c01SessionCookies(b *vfBrowser) [][2]string {
@@ -298,10 +299,7 @@ func (sh *c01Shared) mint(p *vfProxy, id vfIdentity, at time.Time) (*c01Sess, er
 	if redis {
 		sh.redisMu.Lock()
 		defer sh.redisMu.Unlock()
-		before = map[string]bool{}
-		for _, k := range sh.W.Redis().Keys() {
-			before[k] = true
-		}
+		before = sh.keysBefore()
 	}
 	b := vfNewBrowser("")
 	l, err := b.StartLogin(p, id, "/")
@@ -324,17 +322,38 @@ func (sh *c01Shared) mint(p *vfProxy, id vfIdentity, at time.Time) (*c01Sess, er
 	}
 	s := &c01Sess{Value: cs[0][1]}
 	if redis {
-		for _, k := range sh.W.Redis().Keys() {
-			if !before[k] {
-				s.Key = k
-			}
-		}
+		s.Key, s.Val = sh.newKey(before)
 		if s.Key == "" {
 			return nil, fmt.Errorf("redis login created no key")
 		}
-		s.Val, _ = sh.W.Redis().Get(s.Key)
 	}
 	return s, nil
+}
+
+// keysBefore / newKey attribute the Redis entry a login creates (callers hold redisMu). Entries that other goroutines
+// remove and restore meanwhile are recognised by the registry of keys already attributed.
+func (sh *c01Shared) keysBefore() map[string]bool {
+	before := map[string]bool{}
+	for _, k := range sh.W.Redis().Keys() {
+		before[k] = true
+	}
+	return before
+}
+
+func (sh *c01Shared) newKey(before map[string]bool) (key, val string) {
+	if sh.owned == nil {
+		sh.owned = map[string]bool{}
+	}
+	for _, k := range sh.W.Redis().Keys() {
+		if !before[k] && !sh.owned[k] {
+			key = k
+		}
+	}
+	if key != "" {
+		sh.owned[key] = true
+		val, _ = sh.W.Redis().Get(key)
+	}
+	return
 }
 
 func (sh *c01Shared) restore(s *c01Sess) {
@@ -410,7 +429,7 @@ func (c c01Cfg) flags(sh *c01Shared) []string {
 		f = append(f, "--redis-connection-url="+w.RedisURL())
 	}
 	if c.Static {
-		f = append(f, "--upstream=static://202")
+		f = append(f, "--upstream=static://202", "--upstream="+sh.UpB.URL()+"/b/") // legacy flags register a static upstream at "/"
 	} else {
 		f = append(f, "--upstream="+w.Up.URL()+"/", "--upstream="+sh.UpB.URL()+"/b/")
 	}
@@ -638,21 +657,11 @@ func c01BuildCreds(run *vfRun, sh *c01Shared, cfg c01Cfg, p *vfProxy, rng *mrand
 	// htpasswd form login (valid -> session cookie that is a credential; invalid -> must not yield a session cookie)
 	if htOn {
 		sh.redisMu.Lock()
-		before := map[string]bool{}
-		if cfg.Store == "redis" {
-			for _, k := range sh.W.Redis().Keys() {
-				before[k] = true
-			}
-		}
+		before := sh.keysBefore()
 		r := p.Do(vfNewReq("POST", "/oauth2/sign_in").WithBody("application/x-www-form-urlencoded", []byte("username=bob&password=pw1&rd=%2F")))
 		s := &c01Sess{}
 		if cfg.Store == "redis" {
-			for _, k := range sh.W.Redis().Keys() {
-				if !before[k] {
-					s.Key = k
-					s.Val, _ = sh.W.Redis().Get(k)
-				}
-			}
+			s.Key, s.Val = sh.newKey(before)
 		}
 		sh.redisMu.Unlock()
 		for _, line := range r.SetCookies() {
@@ -860,16 +869,12 @@ func (in *c01Inst) do(cred *c01Cred, sp c01Spec, id string) {
 	served, ident, hasIdent := false, c01Ident{}, false
 	switch class {
 	case "proxy":
-		if cfg.Static {
-			served = resp.Code == 202
-		} else {
-			served = len(hits) > 0
-			if served {
-				ident = c01Ident{User: hits[0].Header.Get("X-Forwarded-User"), Email: hits[0].Header.Get("X-Forwarded-Email")}
-				hasIdent = ident.User != "" || ident.Email != ""
-				if len(hits) != 1 {
-					run.Violation("c01:upstream-hit-count", fmt.Sprintf("%d upstream requests for one client request: %s", len(hits), desc.String()), wit())
-				}
+		served = len(hits) > 0 || (cfg.Static && resp.Code == 202)
+		if len(hits) > 0 {
+			ident = c01Ident{User: hits[0].Header.Get("X-Forwarded-User"), Email: hits[0].Header.Get("X-Forwarded-Email")}
+			hasIdent = ident.User != "" || ident.Email != ""
+			if len(hits) != 1 {
+				run.Violation("c01:upstream-hit-count", fmt.Sprintf("%d upstream requests for one client request: %s", len(hits), desc.String()), wit())
 			}
 		}
 	case "auth":
@@ -920,7 +925,7 @@ func (in *c01Inst) do(cred *c01Cred, sp c01Spec, id string) {
 		if class == "userinfo" && len(resp.Body) == 0 { // HEAD over the wire: no body to look at
 			ok = resp.Code == 200
 		}
-		if ok && (class == "proxy" && !cfg.Static || class == "userinfo" && len(resp.Body) > 0) && !hasIdent {
+		if ok && (class == "proxy" && len(hits) > 0 || class == "userinfo" && len(resp.Body) > 0) && !hasIdent {
 			run.Violation("c01:wrong-identity-served", "served without the identity of the valid credential: "+desc.String(), wit())
 			return
 		}
